@@ -253,6 +253,47 @@ func readerUsedSequentially(p *pkg, fd *ast.FuncDecl) bool {
 	return ok
 }
 
+// readerOrigin: what the tee / copy of a Create method is fed with: "param r"
+// when it is the io.Reader parameter itself, otherwise the expression.
+func readerOrigin(p *pkg, fd *ast.FuncDecl) string {
+	if fd == nil || fd.Body == nil {
+		return "MISSING"
+	}
+	param := ""
+	for _, f := range fd.Type.Params.List {
+		if p.src(f.Type) == "io.Reader" && len(f.Names) == 1 {
+			param = f.Names[0].Name
+		}
+	}
+	out := "MISSING"
+	ast.Inspect(fd.Body, func(x ast.Node) bool {
+		c, ok := x.(*ast.CallExpr)
+		if !ok || out != "MISSING" {
+			return true
+		}
+		var arg ast.Expr
+		switch callName(p, c) {
+		case "io.TeeReader", "io.ReadAll":
+			if len(c.Args) >= 1 {
+				arg = c.Args[0]
+			}
+		case "io.Copy":
+			if len(c.Args) == 2 {
+				arg = c.Args[1]
+			}
+		}
+		if arg != nil {
+			if id, ok := arg.(*ast.Ident); ok && id.Name == param {
+				out = "param " + param
+			} else {
+				out = "expr " + p.src(arg)
+			}
+		}
+		return true
+	})
+	return out
+}
+
 func coqBool(b bool) string {
 	if b {
 		return "true"
@@ -325,6 +366,11 @@ func genObj(repo string) (string, error) {
 		coqBool(readerUsedSequentially(po, po.funcDecl("fsObjects", "Create"))),
 		coqBool(readerUsedSequentially(po, po.funcDecl("mem", "Create"))),
 		coqBool(readerUsedSequentially(po, po.funcDecl("mappedStore", "Create"))))
+
+	fmt.Fprintf(&b, "Definition gen_create_reader_origin : list string :=\n  [ %s; %s; %s ].\n\n",
+		coqStr(readerOrigin(po, po.funcDecl("fsObjects", "Create"))),
+		coqStr(readerOrigin(po, po.funcDecl("mem", "Create"))),
+		coqStr(readerOrigin(po, po.funcDecl("mappedStore", "Create"))))
 
 	putTexts := po.bodyTexts(po.funcDecl("mem", "Put"))
 	getTexts := po.bodyTexts(po.funcDecl("mem", "Get"))
